@@ -5,10 +5,11 @@ import subprocess
 from lib import vcommon as vc
 
 WRAPS = {
-    "parallel/parallel.c": ["gvt_phase_run", "process_msg", "mpi_remote_msg_handle", "gvt_msg_drain", "stats_on_gvt"],
+    "parallel/parallel.c": ["gvt_phase_run", "process_msg", "mpi_remote_msg_handle", "gvt_msg_drain", "stats_on_gvt", "msg_allocator_on_gvt"],
     "lp/process.c": ["msg_queue_insert", "msg_queue_extract", "msg_allocator_alloc", "msg_allocator_free",
                      "model_allocator_checkpoint_take", "model_allocator_checkpoint_restore", "termination_on_lp_rollback",
-                     "termination_on_msg_process", "fossil_lp_collect", "stats_take"],
+                     "termination_on_msg_process", "fossil_lp_collect", "stats_take", "msg_allocator_free_at_gvt",
+                     "mpi_remote_msg_send", "mpi_remote_anti_msg_send"],
     "distributed/mpi.c": ["msg_queue_insert", "msg_allocator_alloc"],
     "gvt/fossil.c": ["msg_allocator_free"],
     "datatypes/msg_queue.c": ["msg_allocator_free=vw_qfini_msg_allocator_free"],
@@ -17,7 +18,12 @@ WRAPS = {
 MODEL_SRC = ["model/vmodel.c", "model/refexec.c", "model/coreenv.c"]
 
 
-def build(d, san=False, harness="harness/h_run.c", name="h_run"):
+REF_RENAMES = ["random_lib_lp_init", "RandomU64", "Random", "Poisson", "Normal", "Gamma", "Zipf", "RandomRange", "current_lp", "global_config"]
+
+
+def build(d, san=False, harness="harness/h_run.c", name=None, ranks=1):
+    """Whole runtime in `ranks` symbol-renamed copies (prefix r<k>_) linked into one binary with the harness."""
+    name = name or f"h_run{ranks}"
     srcs = [s for s in vc.core_sources() if s != "arch/thread.c"]
     core = vc.build_core(d, files=srcs, san=san, hook=True, extra=["-w"])
     for src, obj in zip(srcs, core):
@@ -35,9 +41,26 @@ def build(d, san=False, harness="harness/h_run.c", name="h_run"):
         p = subprocess.run(["objcopy"] + args + [obj], capture_output=True, text=True)
         if p.returncode:
             raise vc.EngineError("objcopy failed: " + p.stderr)
-    objs = vc.build_objs(d, [harness, "engine/rsched.c", "engine/plat.c", "engine/fakempi/fakempi.c"] + MODEL_SRC, san=san,
-                         extra=["-w", "-I" + os.path.join(vc.VERIF, "harness")])
-    return vc.link(os.path.join(d, name), objs + core, san=san)
+    allo = os.path.join(d, "core_all.o")
+    p = subprocess.run(["ld", "-r", "-o", allo] + core, capture_output=True, text=True)
+    if p.returncode:
+        raise vc.EngineError("ld -r failed: " + p.stderr[-1500:])
+    nm = subprocess.run(["nm", "-g", "--defined-only", allo], capture_output=True, text=True).stdout.splitlines()
+    defined = sorted({l.split()[-1] for l in nm if len(l.split()) >= 3})
+    rank_objs = []
+    for k in range(ranks):
+        mp = os.path.join(d, f"rank{k}.map")
+        open(mp, "w").write("".join(f"{s} r{k}_{s}\n" for s in defined))
+        ro = os.path.join(d, f"rank{k}.o")
+        p = subprocess.run(["objcopy", f"--redefine-syms={mp}", allo, ro], capture_output=True, text=True)
+        if p.returncode:
+            raise vc.EngineError("objcopy rank copy failed: " + p.stderr[-1500:])
+        rank_objs.append(ro)
+    common = ["-w", "-I" + os.path.join(vc.VERIF, "harness"), f"-DNRANKS={ranks}"]
+    objs = vc.build_objs(d, [harness, "engine/rsched.c", "engine/plat.c", "engine/fakempi/fakempi.c", "model/vmodel.c", "model/coreenv.c"],
+                         san=san, extra=common)
+    objs += vc.build_objs(d, ["model/refexec.c"], san=san, extra=common + [f"-D{s}=r0_{s}" for s in REF_RENAMES])
+    return vc.link(os.path.join(d, name), objs + rank_objs, san=san)
 
 
 def scen(name, model, T=2, ck=1, gp=0, tt=0, p=1, d=0, fine="none", oracle="all", j=2, deadline=600, extra=(), budget=None):
